@@ -193,3 +193,5 @@ def run(ctx):
             # results may legitimately differ only when a multi-line literal is part of the displayed result (CR inside the text)
             ctx.violation('chain:crlf', s, a, b)
     ctx.streams.append({'stream': 'chain-crlf', 'cases': len(lines)})
+    from props import c18_lineends   # the same kind of programs with MIXED line ends and blank runs, judged by the spec's physical lines
+    c18_lineends.run_mixed(ctx, g, [(p, ['call_%d' % i for i in range(d)] + ['fault'], t) for p, d, t in (gen(g, rng) for _ in range(ctx.n(600, 15000)))])
